@@ -1062,6 +1062,8 @@ class Walker:
     for v, t in thyps.items():
       if v not in hyps and isinstance(after.env.get(v), Poly) and after.env[v].as_atom() is not None:
         after.facts.append(("truthy" if t else "falsy", after.env[v]))
+    visit["after_env"] = {v: after.env.get(v) for v in mod}
+    visit["pre_env"] = {v: st.env.get(v) for v in mod}
     if not is_for:
       c = self.cond(n.test, after)
       has_break = bool(exits)
